@@ -173,6 +173,12 @@ def build(ctx, topo):
                 edges.add((id(a), id(b)))
         l["adapters"] = elems[1:-1]
 
+    for l in links:
+        srcc = comps[l["src"]]
+        if isinstance(srcc, HComp):
+            for a in l["adapters"]:
+                a._vf_init = srcc.start
+
     def chain_kinds(li):
         tap = topo["links"][li].get("tap")
         prefix = chain_kinds(tap[0])[: tap[1] + 1] if tap is not None else []
@@ -237,7 +243,11 @@ def spec_with_delay(ada, kind, t):
     harness created the adapter with (independent of the adapter's own with_delay, which is part of what
     is checked): DelayFixed(d): t - d; DelayToPull(n, extra): time of the n-th last pull through the
     adapter (the initial time while fewer than n pulls happened) - extra; never before the initial time."""
-    init = ada.initial_time
+    # start time of the data the adapter reads: the harness knows it for time-component sources (their declared
+    # output time); behind a pull-based component the adapter's own record is used
+    init = getattr(ada, "_vf_init", None)
+    if init is None:
+        init = ada.initial_time
     if kind == "dfix" and hasattr(ada, "_vf_spec"):
         off = t - ada._vf_spec
     elif kind.startswith("dpull") and hasattr(ada, "_vf_spec"):
